@@ -8,6 +8,7 @@ import QrlewModel.Model.Monotone
 import QrlewModel.Model.Injection
 import QrlewModel.Model.Filter
 import QrlewModel.Model.Clip
+import QrlewModel.Model.Tau
 /-!
 JSON-lines driver over the executable model.  One input line = one harness line
 (`{"stream":..,"case":..,..}`); one output line = `{"model": <canonical output>}`.
@@ -308,6 +309,16 @@ def runClip (c : Json) (aux : Json) : Option Json := do
   let ok2 := (List.range nG.toNat).all fun g => present.contains (Int.ofNat g) || !(rows.any fun r => r.2.1 == Int.ofNat g)
   pure (Json.mkObj [("clip_ok", Json.bool (ok && ok2))])
 
+def runLimit (c : Json) : Option Json := do
+  let k ← (c.getObjVal? "k").toOption >>= jInt?
+  let nU ← (c.getObjVal? "n_units").toOption >>= jInt?
+  let rowsJ ← (c.getObjVal? "rows").toOption >>= fun a => a.getArr?.toOption
+  let units ← rowsJ.toList.mapM fun r => (r.getArrVal? 0).toOption >>= jInt?
+  let counts := (List.range nU.toNat).map fun u =>
+    let n := (units.filter fun x => x == Int.ofNat u).length
+    (Tau.kept k.toNat (List.replicate n 0)).length
+  pure (Json.mkObj [("const_counts", Json.arr (counts.map fun n => Json.num (JsonNumber.fromNat n)).toArray)])
+
 def handle (line : String) : Json :=
   match Json.parse line with
   | .error e => Json.mkObj [("model", Json.null), ("error", Json.str s!"parse: {e}")]
@@ -320,6 +331,7 @@ def handle (line : String) : Json :=
       | "fnimg" => runFnImg c
       | "ofint" => runOfInt c
       | "filter" => runFilter c
+      | "limit" => runLimit c
       | "clip" => runClip c ((j.getObjVal? "aux").toOption.getD Json.null)
       | "dpevent" => runDpEvent c
       | "dpquery" => runDpQuery ((j.getObjVal? "aux").toOption.getD Json.null)
